@@ -5,7 +5,7 @@ L in {http, http+TLS, socks5, socks5+TLS, socks4, socks4a, reverse}; C in {direc
 socks5+TLS, socks4, quic, loadbalance[direct,http]}; useSplice in {true,false}; bufferSize in {1, 4096, 65536}.
 Scripts per cell: early data glued to the handshake + echo; origin-first banner; bulk transfer in both directions at
 once with position-dependent patterns and odd write sizes; concurrent tunnels with distinct patterns."""
-import sys, json, ssl, itertools
+import sys, json, ssl, itertools, select
 sys.path.insert(0, '/verif/e4')
 from lib import *
 import ssl
@@ -98,23 +98,34 @@ def cmd_origin(c, a, rec):
                 pass
             return None
         sent = 0
-        same = 0
-        last = -1
         piece = 0
         try:
-            c.settimeout(10)
-            while sent < (64 << 20) and same < 2:
-                c.sendall(pattern(8192, (piece * 7) & 0xff))
-                sent += 8192
-                piece += 1
-                time.sleep(0.003)
-                q = txq()
-                if q is None:
+            # write until the socket takes nothing for half a second (the proxy has stopped reading because its
+            # socket towards the client is full), then wait for the proxy's send queue to stand still
+            c.settimeout(0.5)
+            t_start = time.time()
+            full = False
+            blob = pattern(65536, 7)
+            while sent < (256 << 20) and time.time() - t_start < 30:
+                try:
+                    sent += c.send(blob)     # exactly what the socket took
+                except socket.timeout:
+                    full = True
                     break
-                same = same + 1 if (q == last and q > 0) else 0
-                last = q
-            with vlock:
-                verdicts[tok] = (sent, True, None)
+            if full is None:
+                with vlock:
+                    verdicts[tok] = (sent, False, 'partial piece')
+            else:
+                same, last = 0, -1
+                for _ in range(100):
+                    q = txq()
+                    same = same + 1 if (q == last and q is not None and q > 0) else 0
+                    last = q
+                    if same >= 3:
+                        break
+                    time.sleep(0.1)
+                with vlock:
+                    verdicts[tok] = (sent, bool(full) and same >= 3, None)
             c.settimeout(20)
             c.recv(16)
         except OSError:
@@ -464,14 +475,15 @@ def script_tls_backpressure(lname, pa):
             if r['rep'] != 0:
                 return f'tunnel-not-established:{r}'
         v = None
-        for _ in range(400):
+        for _ in range(900):
             with vlock:
                 v = verdicts.get(tok)
             if v:
                 break
             time.sleep(0.05)
         if not v or not v[1]:
-            return f'tls-backpressure:origin could not fill the path ({v})'
+            # the scenario did not build up (the path was not full and still within the time allowed): no verdict
+            return f'inconclusive:the origin could not fill the path ({v})'
         n = v[0]
         time.sleep(0.3)
         got = len(rest)
@@ -551,7 +563,10 @@ def run_cell(cell):
             out.append(('after-aborted-tunnel', f'exception:{e!r}'[:200]))
     if lname in ('http+tls', 'socks5+tls') and cname == 'direct':
         try:
-            out.append(('tls-backpressure', script_tls_backpressure(lname, pa)))
+            v = script_tls_backpressure(lname, pa)
+            if v.startswith('inconclusive'):
+                v = script_tls_backpressure(lname, pa)
+            out.append(('tls-backpressure', v))
         except Exception as e:
             out.append(('tls-backpressure', f'exception:{e!r}'[:200]))
     if THOROUGH:
@@ -649,6 +664,8 @@ for cell, res in zip(cells, results):
     for sname, verdict in res:
         evals += 1
         distinct.add((lname, cname, sname, verdict.split(':')[0]))
+        if verdict.startswith('inconclusive'):
+            machinery(f'{lname} -> {cname} script {sname}: {verdict}')
         if verdict != 'ok':
             what = verdict.split(' ')[0]
             chk.violation(f'tunnel.{lname}->{cname}', f'{what}|splice={splice}|buffer={bufsz}', f'{lname} -> {cname} (useSplice={splice}, bufferSize={bufsz}) script {sname}: {verdict}', {'listener': lname, 'connector': cname, 'useSplice': splice, 'bufferSize': bufsz, 'script': sname})
